@@ -5,6 +5,8 @@ import PhyModel.Proofs.MovesPrBlock4
 import PhyModel.Proofs.PGSub7
 import PhyModel.Proofs.PGSubExample
 import PhyModel.Proofs.PGExample
+import PhyModel.Proofs.Sweep2
+import PhyModel.Proofs.SweepExample
 /-! # C04 — data-point, prune-regraft and subtree moves preserve the same posterior
 
 `gibbs_block_invariant` is the argument behind the data-point move and the prune-regraft move: a
@@ -33,7 +35,14 @@ invariant distribution is the full-tree posterior restricted to the trees `graft
 three proposals, every `N ≥ 1` and every threshold.  The abstract argument is conditional SMC whose
 final selection uses the weights `w · h(x)` (`csmc_corrected_invariant`), also under the code's
 schedule for a single data point, where the swarm is resampled on the uncorrected weights BEFORE the
-correction (`csmc_corrected_invariant_final_resample`). -/
+correction (`csmc_corrected_invariant_final_resample`).
+
+**The whole sweep** (last section): C01's `pg_invariant` and the two move theorems above are brought onto one
+finite state space — `Sweep.space c D`, the complete well-formed canonical trees on the data points `D`
+(`sweep_state_space`, `sweep_kernels_invariant`) — and composed: one iteration of `run.py:_run_main_sampler`
+with `subtree_update_prob = 0` (`Sweep.sweepModel`: particle Gibbs, `k₁` data-point scans, `k₂`
+prune-regraft moves) leaves `pOne` invariant (`full_sweep_invariant`), and so does any number of
+iterations at a fixed concentration value (`chain_invariant`). -/
 
 namespace PhyModel.Props.C04
 open Finset BigOperators
@@ -344,6 +353,147 @@ proposal kind, and data point 2 is a clone data point (its region is the one of 
 example : (∀ k, PG.WFT (PG.subCfg k) PG.subFull) ∧ (∀ j ∈ PG.subFull.f.all ++ PG.subFull.out, C19P.GoodIdx PG.subData j) ∧
     2 ∈ PG.subFull.f.all ∧ (regionOf PG.subFull 2).1.all ++ PG.subFull.out = [2, 1, 3] := by
   refine ⟨PG.subFull_wft, PG.subFull_good, ?_, ?_⟩ <;> decide +kernel
+
+/-! ## The whole sweep
+
+One iteration of `run.py:_run_main_sampler` with `subtree_update_prob = 0` is
+`tree_sampler.sample_tree` (whole-tree particle Gibbs, C01), `num_samples_data_point` data-point scans,
+`num_samples_prune_regraph` prune-regraft moves, `relabel_nodes` (no effect on the canonical tree), with
+the concentration value held fixed: `Sweep.sweepModel r mv k₁ k₂` (`Model/Sweep.lean`).  C01 is stated on
+the subtype of the computed list `PGSpec.allStates c D` with the target `PG.piD`; the two move theorems
+above on duplicate-free closed lists of well-formed trees with `Moves.pOneOf`.  The common state space is
+`Sweep.space c D = (PGSpec.finals c D).eraseDups`. -/
+
+/-- **The hypotheses of the whole-sweep theorems, bundled**: those of C01 `pg_invariant` on the data set
+(`PG.HypD`: data indices `D` distinct, non-empty and below the sentinel, positive likelihoods, outlier
+priors in `[0,1)`, `α > 0`, outlier proposal probability in `[0,1)`, any of the three proposals, kernel
+with a permutation distribution), the tree sampler `r` built on that data and kernel with `N ≥ 1`
+particles (any threshold), and the move configuration `mv` built by `run.py:setup_samplers` from the same
+tree distribution (`Sweep.mvOf r`: same data, same concentration value, outlier set used iff outlier
+modelling is on).  The hypotheses of `dataPointMove_invariant` / `pruneRegraft_invariant` about the state
+list follow from these (`sweep_state_space`). -/
+structure SweepHyp (dt : Data) (c : Proposal.Cfg) (D : List ℕ) (r : SMC.Run) (mv : Moves.Cfg) : Prop where
+  data : PG.HypD dt c D
+  r_dt : r.dt = dt
+  r_c : r.c = c
+  r_N : 1 ≤ r.N
+  mv_eq : mv = Sweep.mvOf r
+
+theorem SweepHyp.run_eq {dt : Data} {c : Proposal.Cfg} {D : List ℕ} {r : SMC.Run} {mv : Moves.Cfg}
+    (h : SweepHyp dt c D r mv) : r = PG.runOf dt c (r.N - 1) r.θ ∧ mv = Sweep.mvCfg dt c := by
+  obtain ⟨_, h1, h2, h3, h4⟩ := h
+  obtain ⟨rdt, rc, rN, rθ⟩ := r
+  simp only at h1 h2 h3
+  subst h1 h2 h4
+  refine ⟨?_, rfl⟩
+  simp only [PG.runOf]
+  congr
+  omega
+
+/-- **The common state space.**  Under `SweepHyp`, `Sweep.space c D` is duplicate free; its members are
+exactly the members of `PGSpec.finals c D` (the support of C01's target `PG.piD`) and exactly the
+well-formed trees holding the data points `D` (`RunOK.Holds`, C19); C01's target is `pOne` there and 0
+elsewhere; the density of the moves is the density of the kernel and it is positive; and the list
+satisfies every hypothesis of `dataPointMove_invariant` and `pruneRegraft_invariant`. -/
+theorem sweep_state_space (dt : Data) (c : Proposal.Cfg) (D : List ℕ) (r : SMC.Run) (mv : Moves.Cfg)
+    (h : SweepHyp dt c D r mv) :
+    (Sweep.space c D).Nodup ∧ (∀ x, x ∈ Sweep.space c D ↔ x ∈ PGSpec.finals c D) ∧
+    (∀ x, x ∈ Sweep.space c D ↔ RunOK.Holds c D x) ∧
+    (∀ x, PG.piD dt c D x = if x ∈ Sweep.space c D then pOneOf mv x else 0) ∧
+    (∀ x, pOneOf mv x = Proposal.pOneT dt c x) ∧ (∀ x ∈ Sweep.space c D, 0 < pOneOf mv x) ∧
+    (∀ x ∈ Sweep.space c D, WFT x) ∧ (∀ x ∈ Sweep.space c D, (x.f.all ++ x.out).Perm D) ∧
+    (mv.outliers = false → ∀ x ∈ Sweep.space c D, x.out = []) ∧
+    (∀ i ∈ D, ∀ x ∈ Sweep.space c D, ∀ yq ∈ dpStep mv x i, yq.1 ∈ Sweep.space c D) ∧
+    (∀ x ∈ Sweep.space c D, ∀ sub ∈ nodesOf x.f, ∀ y ∈ prCands x sub, y ∈ Sweep.space c D) := by
+  obtain ⟨_, rfl⟩ := h.run_eq
+  have hd := h.data
+  exact ⟨Sweep.space_nodup c D, fun _ => Sweep.mem_space, fun _ => Sweep.mem_space_iff_holds hd,
+    fun x => Sweep.piD_eq x, fun _ => rfl, fun _ hx => Sweep.space_pOne_pos hd hx, Sweep.space_wf hd,
+    Sweep.space_data hd, Sweep.space_out hd, Sweep.space_dp_closed hd, Sweep.space_pr_closed hd⟩
+
+/-- **Each kernel of the sweep leaves `pOne` invariant on the common state space** (expectation form):
+C01's particle-Gibbs update, transported from the subtype of `PGSpec.allStates c D`, and the two moves of
+this file with their hypotheses discharged. -/
+theorem sweep_kernels_invariant (dt : Data) (c : Proposal.Cfg) (D : List ℕ) (r : SMC.Run) (mv : Moves.Cfg)
+    (h : SweepHyp dt c D r mv) (g : T → ℚ) :
+    ((Sweep.space c D).map fun x => pOneOf mv x * Dist.E (SMC.pgStep r x) g).sum
+        = ((Sweep.space c D).map fun x => pOneOf mv x * g x).sum ∧
+    ((Sweep.space c D).map fun x => pOneOf mv x * Dist.E (dataPointMove mv x) g).sum
+        = ((Sweep.space c D).map fun x => pOneOf mv x * g x).sum ∧
+    ((Sweep.space c D).map fun x => pOneOf mv x * Dist.E (pruneRegraft mv x) g).sum
+        = ((Sweep.space c D).map fun x => pOneOf mv x * g x).sum := by
+  obtain ⟨hr, rfl⟩ := h.run_eq
+  rw [hr]
+  exact ⟨Sweep.pgStep_inv h.data _ _ g, Sweep.dataPointMove_inv h.data g, Sweep.pruneRegraft_inv h.data g⟩
+
+/-- **Capstone, expectation form.**  `Σ_{x} pOne x · E[g(sweep x)] = Σ_{x} pOne x · g x` over the complete
+trees on `D`, for every test function `g`. -/
+theorem full_sweep_invariant_E (dt : Data) (c : Proposal.Cfg) (D : List ℕ) (r : SMC.Run) (mv : Moves.Cfg)
+    (h : SweepHyp dt c D r mv) (k₁ k₂ : ℕ) (g : T → ℚ) :
+    ((Sweep.space c D).map fun x => pOneOf mv x * Dist.E (Sweep.sweepModel r mv k₁ k₂ x) g).sum
+      = ((Sweep.space c D).map fun x => pOneOf mv x * g x).sum := by
+  obtain ⟨hr, rfl⟩ := h.run_eq
+  rw [hr]
+  exact Sweep.sweep_inv h.data _ _ k₁ k₂ g
+
+/-- **Capstone: one full sweep of the sampler (without the random-subtree move) leaves the `log_p_one`
+posterior invariant.**  For every data set with data indices `D`, each of the three proposals, every
+`N ≥ 1`, every resampling threshold, every `k₁ = num_samples_data_point`, `k₂ = num_samples_prune_regraph`
+(`SweepHyp`), and every complete tree `y` on `D`:
+`Σ_x pOne x · P(sweepModel x = y) = pOne y`, the sum over the finite type of the complete well-formed
+canonical trees on `D`, `P(· = y)` the expectation of the indicator of `y` under the finite distribution
+`Sweep.sweepModel r mv k₁ k₂ x`. -/
+theorem full_sweep_invariant (dt : Data) (c : Proposal.Cfg) (D : List ℕ) (r : SMC.Run) (mv : Moves.Cfg)
+    (h : SweepHyp dt c D r mv) (k₁ k₂ : ℕ) (y : PG.St (Sweep.space c D)) :
+    ∑ x : PG.St (Sweep.space c D), pOneOf mv x.1 *
+        Dist.E (Sweep.sweepModel r mv k₁ k₂ x.1) (fun z => if z = y.1 then 1 else 0)
+      = pOneOf mv y.1 := by
+  obtain ⟨hr, rfl⟩ := h.run_eq
+  rw [hr]
+  exact Sweep.target_form (Sweep.sweep_inv h.data _ _ k₁ k₂) y
+
+/-- **… in the formalisation of C01** (`Props.C01.pg_invariant` with `SMC.pgStep` replaced by the whole
+sweep): sum over the subtype of `PGSpec.allStates c D`, target `PG.piD`. -/
+theorem full_sweep_invariant_c01 (dt : Data) (c : Proposal.Cfg) (D : List ℕ) (r : SMC.Run) (mv : Moves.Cfg)
+    (h : SweepHyp dt c D r mv) (k₁ k₂ : ℕ) (y : PG.St (PGSpec.allStates c D)) :
+    ∑ x : PG.St (PGSpec.allStates c D), PG.piD dt c D x.1 *
+        Dist.E (Sweep.sweepModel r mv k₁ k₂ x.1) (fun z => if z = y.1 then 1 else 0)
+      = PG.piD dt c D y.1 := by
+  obtain ⟨hr, rfl⟩ := h.run_eq
+  rw [hr]
+  exact Sweep.subtype_form (Sweep.sweep_inv h.data _ _ k₁ k₂) y.1
+
+/-- **Corollary: any number `n` of sweeps at a fixed concentration value leaves the posterior invariant**
+(`Sweep.chainModel`), on the complete trees and in the formalisation of C01. -/
+theorem chain_invariant (dt : Data) (c : Proposal.Cfg) (D : List ℕ) (r : SMC.Run) (mv : Moves.Cfg)
+    (h : SweepHyp dt c D r mv) (k₁ k₂ n : ℕ) :
+    (∀ y : PG.St (Sweep.space c D),
+      ∑ x : PG.St (Sweep.space c D), pOneOf mv x.1 *
+          Dist.E (Sweep.chainModel r mv k₁ k₂ n x.1) (fun z => if z = y.1 then 1 else 0)
+        = pOneOf mv y.1) ∧
+    (∀ y : PG.St (PGSpec.allStates c D),
+      ∑ x : PG.St (PGSpec.allStates c D), PG.piD dt c D x.1 *
+          Dist.E (Sweep.chainModel r mv k₁ k₂ n x.1) (fun z => if z = y.1 then 1 else 0)
+        = PG.piD dt c D y.1) := by
+  obtain ⟨hr, rfl⟩ := h.run_eq
+  rw [hr]
+  exact ⟨fun y => Sweep.target_form (Sweep.chain_inv h.data _ _ k₁ k₂ n) y,
+    fun y => Sweep.subtype_form (Sweep.chain_inv h.data _ _ k₁ k₂ n) y.1⟩
+
+/-- non-vacuity (all of the whole-sweep theorems): the three-point data set of the examples above, every
+proposal kind (outlier proposal probability 1/10, `α = 1`), two particles, threshold 1/2 — `SweepHyp`
+holds, the move configuration is the `exCfg` of the examples above, the common state space has 42 trees
+and contains the 19 + 16 trees of `exDp` and `exPr`; the sweep is not degenerate (by `#eval`, bootstrap
+proposal, `k₁ = k₂ = 1`: from the one-clone tree `sweepModel` lists all 42 trees) -/
+example : Sweep.swData = exData ∧
+    (∀ k, SweepHyp exData (PG.exCfg k) [0, 1, 2] (PG.runOf exData (PG.exCfg k) 1 (1/2)) exCfg) ∧
+    (Sweep.space (PG.exCfg .semi) [0, 1, 2]).length = 42 ∧
+    (∀ x ∈ exDp ++ exPr, x ∈ Sweep.space (PG.exCfg .semi) [0, 1, 2]) := by
+  refine ⟨rfl, fun k => ⟨Sweep.swHypD k, rfl, rfl, by simp [PG.runOf], ?_⟩, ?_, ?_⟩
+  · simp only [Sweep.mvOf, PG.runOf, PG.exCfg, exCfg, Moves.Cfg.mk.injEq, true_and]
+    decide +kernel
+  · decide +kernel
+  · decide +kernel
 
 -- OBLIGATION-OPEN subtree_invariant: only the UNCONDITIONAL statement `Σ_x pOne x · P(subtreeMove x = y) = pOne y` remains, and it is FALSE of model and code (known finding F7: the region is chosen with a state-dependent probability that is never corrected); the conditional statement given the region is proved (`subtree_conditional_invariant`)
 
